@@ -219,6 +219,21 @@ def report(prop, tier, seed, t0, results, scan_results, pinfo, unit_recipes=None
                 rc = 1
                 violations.append(ob)
                 break
+    # bounded stand-ins (never counted as proved): functions outside the verifier's reach, checked on the real code by a
+    # bounded native search with a stated bound
+    bounded_out = []
+    for b in pinfo.get('bounded', []):
+        ob = {'name': f"bounded::{b['name']}", 'detail': f"bounded stand-in for {b['functions']}: {b['bound']}", 'kind': 'bounded',
+              'backend': 'native', 'replay': b['recipe'], 'counterexample': {'inputs': {}}}
+        path, reproduced, out = run_replay(prop, ob, tier)
+        bounded_out.append({'name': b['name'], 'functions': b['functions'], 'bound': b['bound'], 'recipe': b['recipe'],
+                            'result': 'violated' if reproduced else 'held on everything explored', 'level': 'bounded'})
+        if reproduced:
+            print(f"  bounded check {b['name']} ({b['functions']}): the search found a failing input on the real code")
+            print(f'VIOLATION property={prop} replay={path}')
+            rc = 1
+            violations.append(ob)
+    pinfo = dict(pinfo, bounded=bounded_out)
     for u in undecided:
         print(f'UNDECIDED property={prop}: {u}')
     for e in errors:
